@@ -22,6 +22,14 @@ func VHC20Index() {
 	prog := "{ x = $.arr[$.i] }\nEND { print 'end' }"
 	if write {
 		prog = "{ $.arr[$.i] = 1; print 'stored' }\nEND { print 'end' }"
+		switch vh.Choose("target", 4) {
+		case 1: // the array is created by the assignment itself
+			prog = "{ $.fresh[$.i] = 1; print 'stored' }\nEND { print 'end' }"
+		case 2:
+			prog = "{ v.b[$.i] = 1; print 'stored' }\nEND { print 'end' }"
+		case 3:
+			prog = "{ w[0][$.i] = 1; print 'stored' }\nEND { print 'end' }"
+		}
 		if side == 0 && vh.Choose("grown", 2) == 1 {
 			// the array was already extended close to the limit by an earlier (allowed) store
 			prog = "{ $.arr[1000000] = 0; $.arr[$.i] = 1; print 'stored' }\nEND { print 'end' }"
@@ -78,12 +86,25 @@ func VHC20Boundaries() {
 // VHC20Nesting: JSON input nested beyond the decoder's limit is a JSON input error
 // (the limit itself is encoding/json's: concrete witness through the real decoder).
 func VHC20Nesting() {
-	depth := []int{100, 9000, 10001, 20000}[vh.Choose("depth", 4)]
+	depth := []int{100, 4200, 9000, 10001, 20000}[vh.Choose("depth", 5)]
 	in := strings.Repeat("[", depth) + strings.Repeat("]", depth)
 	var out vh.Out
-	_, err := lang.EvalProgram("{ n++ }\nEND { print n }", []lang.InputFile{{Name: "deep", Reader: strings.NewReader(in)}}, nil, &out, false)
+	// whatever is accepted is usable in full: counted, printed and written as JSON
+	prog := "BEGINFILE { print json($).length() > 2 * " + itoa(depth) + "; print $ }"
+	if depth > 4200 {
+		// rendering is quadratic in the depth (every level is checked against its ancestors
+		// for cycles): beyond the call-depth limit's neighbourhood the value is only counted
+		prog = "{ n++ }\nEND { print n }"
+	}
+	_, err := lang.EvalProgram(prog, []lang.InputFile{{Name: "deep", Reader: strings.NewReader(in)}}, nil, &out, false)
 	k := legal(err, "EvalProgram")
 	vh.Reach("nested input evaluated")
+	if k == OK && depth <= 4200 {
+		o := out.String()
+		head := "true\n"
+		vh.Assert(len(o) > len(head) && o[:len(head)] == head, "C20: an accepted deeply nested value serialises with every level")
+		vh.Assert(strings.Count(o, "[") == depth && strings.Count(o, "]") == depth, "C20: an accepted deeply nested value prints with every level")
+	}
 	vh.Assert(k == OK || k == ErrJSON, "C20: deeply nested input is processed or refused with a JSON input error, never a crash")
 	if depth <= 9000 {
 		vh.Assert(k == OK, "C20: input nested a few thousand levels deep is accepted")
